@@ -117,6 +117,10 @@ def has_effect(F, node):
         if op.kind == 'call':
             if op.inlined:
                 continue     # its body is in the graph
+            if op.path is not None and len(op.path) >= 2 and \
+                    op.path[-1] in ('acquire', 'release') and \
+                    op.path[-2] in ('_lock', '_cond'):
+                continue     # taking / leaving the storage lock
             if op.path is None:
                 return True
             if op.path[0] == 'self' and len(op.path) >= 2:
